@@ -28,9 +28,18 @@ MACROSETS = {
     'F_VL_DQ': (['AVEL_AVX512VL', 'AVEL_AVX512DQ'], F + ['-mavx512vl', '-mavx512dq']),
     'F_VL_BW_DQ_CD': (['AVEL_AVX512VL', 'AVEL_AVX512BW', 'AVEL_AVX512DQ', 'AVEL_AVX512CD'], F + ['-mavx512vl', '-mavx512bw', '-mavx512dq', '-mavx512cd']),
     'full':    (FULL_DEFS, FULL_FLAGS),
+    # (AVEL_AVX10_1 alone - 128/256-bit AVX-512 forms without the 512-bit types - does not compile on the pinned tree with
+    #  either compiler: mask types mix __mmask and __m256i primitives.  It is therefore not a supported configuration and not listed.)
+    # AVEL_AUTO_DETECT: the macro set is derived by impl/Detect_capabilities.hpp from the compiler's own target macros
+    'AUTO_x86_64':  (['AVEL_AUTO_DETECT'], ['-march=x86-64']),
+    'AUTO_nehalem': (['AVEL_AUTO_DETECT'], ['-march=nehalem']),
+    'AUTO_haswell': (['AVEL_AUTO_DETECT'], ['-march=haswell']),
+    'AUTO_skx':     (['AVEL_AUTO_DETECT'], ['-march=skylake-avx512']),
+    'AUTO_icx':     (['AVEL_AUTO_DETECT'], ['-march=icelake-server']),
 }
 ORDER = ['none', 'X86', 'SCALAR', 'SSE2', 'SSE3', 'SSSE3', 'SSE4_1', 'SSE4_2', 'AVX', 'AVX2', 'FMA', 'AVX2_FMA_BMI',
-         'AVX512F', 'F_VL', 'F_BW', 'F_DQ', 'F_VL_BW', 'F_VL_DQ', 'F_VL_BW_DQ_CD', 'full']
+         'AVX512F', 'F_VL', 'F_BW', 'F_DQ', 'F_VL_BW', 'F_VL_DQ', 'F_VL_BW_DQ_CD', 'full',
+         'AUTO_x86_64', 'AUTO_nehalem', 'AUTO_haswell', 'AUTO_skx', 'AUTO_icx']
 
 
 def mk(cxx, std, mset, opt='-O2', finl=False, san=False, extra_defs=()):
@@ -60,7 +69,8 @@ def vector_configs(tier, seed=1):
         # values stay undefined) - independently seeded changes c08e, c09f and c11e showed that these dimensions matter
         return [mk('g++', 'c++11', 'none'), mk('g++', 'c++11', 'SSE2'), mk('clang++', 'c++14', 'SSSE3', finl=True), mk('g++', 'c++17', 'SSE4_2'),
                 mk('clang++', 'c++17', 'AVX'), mk('g++', 'c++11', 'AVX2'), mk('g++', 'c++17', 'AVX2', opt='-O0'), mk('clang++', 'c++14', 'AVX512F', finl=True),
-                mk('g++', 'c++20', 'F_VL'), mk('g++', 'c++14', 'F_BW'), mk('g++', 'c++14', 'F_VL_BW', opt='-O0', finl=True), mk('g++', 'c++11', 'full')]
+                mk('g++', 'c++20', 'F_VL'), mk('g++', 'c++14', 'F_BW'), mk('g++', 'c++14', 'F_VL_BW', opt='-O0', finl=True), mk('g++', 'c++11', 'full'),
+                mk('g++', 'c++14', 'AUTO_haswell')]           # macro set derived by Detect_capabilities.hpp (AVX2+FMA+BMI/BMI2/LZCNT/POPCNT)
     out = vector_configs('quick', seed)          # the thorough tier is a superset of the quick tier
     stds = ['c++11', 'c++14', 'c++17', 'c++20']
     for cxx in ('g++', 'clang++'):
@@ -91,8 +101,12 @@ def heap_configs(tier, seed=1):
     if tier == 'quick':
         return [mk('g++', 'c++11', 'none'), mk('g++', 'c++17', 'none'), mk('g++', 'c++11', 'SSE2'),
                 mk('clang++', 'c++11', 'none'), mk('g++', 'c++14', 'none', opt='-O0'), mk('clang++', 'c++17', 'SSE2', opt='-O0'),
-                mk('clang++', 'c++20', 'none', opt='-O1', san=True), mk('clang++', 'c++14', 'none', opt='-O1', san=True)]
+                mk('clang++', 'c++20', 'none', opt='-O1', san=True), mk('clang++', 'c++14', 'none', opt='-O1', san=True),
+                # x86 scalar-feature macros define AVEL_X86 but not AVEL_SSE: the allocator must pick the same implementation in
+                # allocate() and deallocate() there too (independently seeded change c18m)
+                mk('g++', 'c++14', 'SCALAR'), mk('clang++', 'c++11', 'X86', opt='-O0')]
     out = heap_configs('quick', seed)
+    out += [mk(cxx, std, ms, opt=o) for cxx, std, ms, o in (('g++', 'c++11', 'X86', '-O2'), ('g++', 'c++17', 'SCALAR', '-O0'), ('clang++', 'c++14', 'SCALAR', '-O2'), ('clang++', 'c++20', 'X86', '-O2'))]
     for cxx in ('g++', 'clang++'):
         for std in ('c++11', 'c++14', 'c++17', 'c++20'):
             for ms in ('none', 'SSE2', 'AVX2'):
@@ -101,6 +115,7 @@ def heap_configs(tier, seed=1):
                         continue
                     k = _knob('%s/%s/%s/%d' % (cxx, std, ms, seed), 4)
                     out.append(mk(cxx, std, ms, opt=('-O0' if k == 0 else '-O1') if san else ('-O0' if k == 0 else '-O2'), san=san))
+    out += [mk('g++', 'c++11', 'AUTO_x86_64'), mk('clang++', 'c++17', 'AUTO_haswell'), mk('g++', 'c++20', 'AUTO_icx', opt='-O0')]
     seen, uniq = set(), []
     for c in out:
         if c['id'] not in seen:
@@ -126,6 +141,7 @@ def prefetch_configs(tier, seed=1):
             for o in ('-O0', '-O2'):
                 out.append(mk(cxx, stds[(i + (o == '-O2')) % 4], ms, opt=o, finl=(i % 2 == 1)))
     out += [mk(cxx, 'c++11', ms, opt=o, extra_defs=L) for cxx in ('g++', 'clang++') for ms in ('none', 'SSE2', 'full') for o in ('-O0', '-O2')]
+    out += [mk('g++', 'c++11', 'AUTO_x86_64'), mk('clang++', 'c++14', 'AUTO_haswell', opt='-O0'), mk('clang++', 'c++20', 'AUTO_icx')]
     seen, uniq = set(), []
     for c in out:
         if c['id'] not in seen:
